@@ -1,13 +1,33 @@
 module verif/harness
 
-go 1.21
+go 1.22.0
+
+toolchain go1.23.5
 
 require github.com/indexsupply/shovel v0.0.0
 
 require (
-	github.com/holiman/uint256 v1.2.4 // indirect
+	blake.io/pqx v0.2.1 // indirect
+	filippo.io/age v1.0.0 // indirect
+	github.com/goccy/go-json v0.10.2 // indirect
+	github.com/jackc/pgpassfile v1.0.0 // indirect
+	github.com/jackc/pgservicefile v0.0.0-20240606120523-5a60cdf6a761 // indirect
+	github.com/jackc/puddle/v2 v2.2.1 // indirect
+	github.com/klauspost/compress v1.17.4 // indirect
+	github.com/kr/session v0.2.1 // indirect
+	github.com/xi2/xz v0.0.0-20171230120015-48954b6210f8 // indirect
 	golang.org/x/crypto v0.24.0 // indirect
-	golang.org/x/sys v0.21.0 // indirect
+	golang.org/x/sync v0.10.0 // indirect
+	golang.org/x/sys v0.29.0 // indirect
+	golang.org/x/text v0.16.0 // indirect
+	kr.dev/errorfmt v0.1.1 // indirect
+	nhooyr.io/websocket v1.8.10 // indirect
 )
 
 replace github.com/indexsupply/shovel => /repo
+
+require (
+	github.com/holiman/uint256 v1.2.4
+	github.com/jackc/pgx/v5 v5.6.0
+	golang.org/x/tools v0.29.0
+)
